@@ -435,6 +435,19 @@ def gen_objs(rng, avoid_custom=True, id_base=0):
         m = gen_modifier(rng, attr_ids)
         buffs.append([rng.choice([rng.randint(1 + id_base, 6 + id_base), rng.randint(1, 40)]),
                       m[0], m[2], m[3], m[4], m[5]])
+        # near-duplicates: templates of the same buff that differ in exactly one field
+        while rng.random() < 0.35:
+            b = list(buffs[-1])
+            k = rng.choice([2, 2, 3, 4, 5])
+            if k == 2:
+                b[2] = (b[2] or 0) + rng.randint(1, 5) if isinstance(b[2], int) or b[2] is None else b[2]
+            elif k == 3:
+                b[3] = b[3] + 1 if isinstance(b[3], int) else b[3]
+            elif k == 4:
+                b[4] = (b[4] % 10) + 1 if isinstance(b[4], int) else b[4]
+            else:
+                b[5] = (b[5] % 3) + 1 if isinstance(b[5], int) else b[5]
+            buffs.append(b)
     return [types, attrs, effects, buffs]
 
 
